@@ -95,6 +95,28 @@ fn strings_upto3(four: bool) -> Vec<String> {
             v.push(c.repeat(n / 4));
         }
     }
+    // long and over-long texts of MIXED character widths: k ASCII characters, then one 2-, 3- or 4-byte character repeated
+    // (or the four widths in rotation) up to about n bytes - for every byte offset some of them have a character
+    // straddling it (code that cuts, previews or measures a text by bytes must cope, on the refusal path too)
+    for k in 0..4usize {
+        for n in [40usize, 300, 507, 508, 509, 510, 513, 600, 764, 770, 1024, 2000] {
+            for c in ["\u{e9}", "\u{20ac}", "\u{1f600}", "\u{c3}\u{a9}"] {
+                let mut t = menu::rep('a', k);
+                while t.len() < n {
+                    t.push_str(c);
+                }
+                v.push(t);
+            }
+            let mut t = menu::rep('a', k);
+            let rot = ["a", "\u{e9}", "\u{20ac}", "\u{1f600}"];
+            let mut i = k;
+            while t.len() < n {
+                t.push_str(rot[i % 4]);
+                i += 1;
+            }
+            v.push(t);
+        }
+    }
     for n in [507usize, 508, 509, 510, 762, 763, 764] {
         v.push(menu::rep('a', n));
         v.push(menu::rep('\u{e9}', n / 2) + if n % 2 == 1 { "a" } else { "" });
